@@ -152,7 +152,7 @@ func checkC11(c *an.Ctx) {
 	c.Rule("C11.1", "tee (E5): TaskOutput.Stdout() is a MultiWriter over the decorator and &Task.Log.Stdout (Stderr: &Task.Log.Stderr); Run hands exactly these to CompileTask; no writer on the way modifies or retains the caller's buffer")
 	c.Rule("C11.2", "store after success (E3): the output store is executed only when every command ran (err==nil of the job walk) and before Run returns")
 	c.Rule("C11.3", "visibility (E5): Run builds every task's env starting from TaskRunner.env, the container the store writes")
-	c.Rule("C11.4", "name (E5): with an empty ExportAs the key is ReplaceAllString([^a-zA-Z0-9_] → _) of ToUpper(Task.Name)+\"_OUTPUT\"; otherwise it is Task.ExportAs unchanged; the value is Task.Log.Stdout")
+	c.Rule("C11.4", "name (E5): with an empty ExportAs the key is ReplaceAllString([^a-zA-Z0-9_] → _) of ToUpper(Task.Name)+\"_OUTPUT\"; otherwise it is Task.ExportAs unchanged; the value is Task.Log.Stdout; outside pkg/task and internal/config nothing rewrites ExportAs or Name of a configured task or of its per-stage copy (the names the output is published under are the configured ones)")
 	c.Rule("C11.5", ".Output (E3/E5): before each Execute the variable Output is set from a loop-carried value that every back edge refreshes with that iteration's Execute result; Execute returns the buffer suffix starting at the length recorded before the interpreter ran")
 	c.Rule("C11.6", "the capture is only appended to and read whole (who-may-touch, module-wide + E2): apart from the tee, every use of &Task.Log.Stdout is a non-consuming read (String, Len, Bytes, Cap); anything that consumes, truncates, resets or writes it (Read*, Next, WriteTo, Reset, Truncate, Write*, handing it out as an io.Reader or a *bytes.Buffer) is unreachable while Task.Errored is false")
 	c.Rule("C11.7", "every run captures into buffers of its own (type shape + E4): a stage runs a value copy of its task, so the capture buffers must be part of the task value — Task.Log and its Stdout are reached without a pointer, map, slice or interface on the way — or else every whole-value copy of a task made in the module is given a newly allocated log before it is used; otherwise two stages (or two firings of a watcher) that share a task write into one buffer and each sees the other's output")
@@ -164,6 +164,7 @@ func checkC11(c *an.Ctx) {
 	}
 	c.OK("C11.0", "runner roles", r.run.Pos(), "store=%s", an.Short(r.store))
 
+	taskPolicyUntouched(c, "C11.4", "ExportAs", "Name")
 	// C11.1
 	for _, w := range []struct{ method, field string }{{"Stdout", "Stdout"}, {"Stderr", "Stderr"}} {
 		fn := p.Func("pkg/output", "TaskOutput", w.method)
@@ -207,7 +208,7 @@ func checkC11(c *an.Ctx) {
 			arg := argOf(r.compileCall, ct, w.param)
 			good := false
 			for _, src := range an.Sources(arg) {
-				if call, ok := src.(*ssa.Call); ok && an.ShortCallee(&call.Call) == "(*pkg/output.TaskOutput)."+w.method {
+				if call, ok := src.(*ssa.Call); ok && an.ShortCallee(&call.Call) == "(pkg/output.TaskOutput)."+w.method {
 					good = true
 				}
 			}
